@@ -1,7 +1,7 @@
 SPECIFICATION TSpec
 CONSTANTS
   MaxLevel = 255
-  StrictLen = FALSE
+  StrictLen = TRUE
   Shape = "head"
 INVARIANT Done
 CHECK_DEADLOCK FALSE
